@@ -148,6 +148,44 @@ def make_controller(server, url=DEFAULT_URL):
     return c, out
 
 
+def plugin_config(workdir, nplugins, url=DEFAULT_URL):
+    """A client configuration file with `nplugins` (1 or 2) extra [ctlplugin:*] sections."""
+    import os
+    path = os.path.join(workdir, 'ctl_plugins_%d.conf' % nplugins)
+    text = '[supervisorctl]\nserverurl = %s\n\n[ctlplugin:x]\nsupervisor.ctl_factory = c20_plugins:make_x\n' % url
+    if nplugins >= 2:
+        text += '\n[ctlplugin:y]\nsupervisor.ctl_factory = c20_plugins:make_y\n'
+    with open(path, 'w') as f:
+        f.write(text)
+    return path
+
+
+def run_real_configured(line, script, config_path):
+    """Controller.onecmd(line) with a real ClientOptions realized from a configuration file
+    (so options.plugin_factories holds the default plugin followed by the configured ones)."""
+    from supervisor import supervisorctl
+    from supervisor.options import ClientOptions
+    srv = ScriptedServer(script)
+
+    class Opts(ClientOptions):
+        def getServerProxy(self):
+            return _Proxy(srv)
+
+    o = Opts()
+    o.realize(['-c', config_path])
+    o.interactive = False
+    out = _Out()
+    supervisorctl.http_client = _HttpShim(srv)
+    c = supervisorctl.Controller(o, stdout=out)
+    escaped = None
+    try:
+        c.onecmd(line)
+    except BaseException as e:
+        escaped = '%s: %s' % (type(e).__name__, e)
+    return {'msgs': list(out.msgs), 'status': c.exitstatus, 'calls': srv.calls, 'escaped': escaped,
+            'plugins': [p.name for p in o.plugins]}
+
+
 _HELP = {}
 
 
@@ -178,7 +216,7 @@ def run_real(line, script, url=DEFAULT_URL, responder=None):
             'escaped': escaped}
 
 
-def run_main(words, script, url=DEFAULT_URL, stdin_text=None):
+def run_main(words, script, url=DEFAULT_URL, stdin_text=None, config_path=None):
     """The one-shot entry point: supervisorctl.main(['-s', url] + words) with a real ClientOptions
     (real realize(): argv parsing, no config file) whose getServerProxy returns the scripted proxy.
     Returns dict(msgs, exit_code, calls); exit_code is what sys.exit() was called with."""
@@ -203,7 +241,8 @@ def run_main(words, script, url=DEFAULT_URL, stdin_text=None):
             import io
             sys.stdin = io.StringIO(stdin_text)
         try:
-            supervisorctl.main(args=['-s', url] + list(words), options=Opts())
+            supervisorctl.main(args=(['-c', config_path] if config_path else []) + ['-s', url] + list(words),
+                               options=Opts())
         except SystemExit as e:
             code = e.code
         except BaseException as e:
